@@ -31,6 +31,22 @@ class Prop:
     fuzz_kinds = None
     fuzz_times = True
     fuzz_n = (100, 1500)
+    # generated files (lean/Wheatley/Generated) this property's model and theorems rest on; None = by number:
+    # the timed properties use the arithmetic, C18 the character tables, C19 the handler IR
+    generated_deps = None
+
+    def deps(self):
+        if self.generated_deps is not None:
+            return set(self.generated_deps)
+        n = int(self.id[1:])
+        d = {"Constants.lean"}
+        if 6 <= n <= 17 or n == 19:
+            d.add("Arith.lean")
+        if n == 18:
+            d.add("CharTables.lean")
+        if n == 19:
+            d.add("HandlerIR.lean")
+        return d
 
     def corpus(self):
         return []
@@ -116,13 +132,23 @@ def run_check(prop, tier, seed, replay=None):
     notes = []
     broken = []          # descriptions of proof obligations / correspondences that no longer check
 
-    # 1. translate
+    # 1. translate (source text and running code; see extract.run)
+    trep = {}
     try:
-        ok, msg = core.translate()
+        ok, msg, trep = core.translate()
     except Exception as e:
         ok, msg = False, f"translator raised {type(e).__name__}: {e}"
     if not ok:
         broken.append({"what": "translator", "detail": msg})
+    else:
+        unv = sorted(set(trep.get("unverified", [])) & prop.deps())
+        if unv:
+            broken.append({"what": "translator: " + ", ".join(unv) + " could not be tied to the current source",
+                           "detail": {k: v for k, v in trep.get("static_errors", {}).items()}})
+        for k, v in trep.get("static_errors", {}).items():
+            notes.append(f"translator: {k} not read off the source text ({v}); source: {trep.get('sources', {}).get(k)}")
+        for k, v in trep.get("disagreements", {}).items():
+            notes.append(f"translator: {k}: {v} (the running code's value is used)")
 
     # 2. build
     targets = ["driver"] + ([prop.lean_module] if prop.lean_module else [])
@@ -134,6 +160,20 @@ def run_check(prop, tier, seed, replay=None):
         # is the driver alone still buildable?
         dok, _ = core.build(["driver"])
         driver_ok = dok and os.path.exists(core.DRIVER)
+
+    # 2b. the generated definitions the driver was built with, against the running code
+    if driver_ok and ({"Constants.lean", "Arith.lean"} & prop.deps()):
+        try:
+            from harness import genprobe
+            bad, unmeasured = genprobe.validate_against_driver()
+            if not ({"Arith.lean"} & prop.deps()):
+                bad = [b for b in bad if " at sample " not in b]
+            if bad:
+                broken.append({"what": "generated definitions differ from the running code", "detail": bad[:10]})
+            for u in unmeasured:
+                notes.append("generated-vs-running-code: not measured: " + u)
+        except Exception as e:  # noqa
+            notes.append(f"generated-vs-running-code check raised {type(e).__name__}: {e}")
 
     # 3. audit
     forb = core.grep_forbidden()
